@@ -117,6 +117,7 @@ type harnessSummary struct {
 	Pruned          int64          `json:"pruned_by_assume"`
 	Decisions       int64          `json:"solver_decided_branches"`
 	Choices         int64          `json:"enumerated_choices"`
+	FastDecided     int64          `json:"branch_queries_decided_by_octet_domain"`
 	AssertsSolver   int64          `json:"assertions_discharged_by_solver"`
 	AssertsConcrete int64          `json:"assertions_true_by_constant_folding"`
 	Steps           int64          `json:"ssa_instructions_executed"`
@@ -165,9 +166,18 @@ func (c *checker) run(id string) int {
 		h   string
 	}
 	var results []hres
+	budget := 300 * time.Second
+	if c.tier == "thorough" {
+		budget = 45 * time.Minute
+	}
+	if v, err := strconv.Atoi(os.Getenv("VERIF_BUDGET_S")); err == nil && v > 0 {
+		budget = time.Duration(v) * time.Second
+	}
+	deadline := t0.Add(budget)
 	for _, h := range hs {
 		cfg := gosym.Config{Harness: h, Tier: c.tierN(), Workers: c.workers, KnownIDs: knownIDs, SolverKind: c.solver,
-			MaxPaths: c.maxPaths, PreemptBound: 2, WitnessMode: c.native}
+			MaxPaths: c.maxPaths, PreemptBound: 2, WitnessMode: c.native, Deadline: deadline,
+			NoFastPath: os.Getenv("VERIF_NO_FASTPATH") != "", CrossCheck: c.tier == "thorough" || os.Getenv("VERIF_CROSSCHECK") != ""}
 		if c.tier == "thorough" {
 			cfg.PreemptBound = 3
 		}
@@ -215,7 +225,7 @@ func (c *checker) run(id string) int {
 	byHarness := map[string]*harnessSummary{}
 	for _, r := range results {
 		rep, h := r.rep, r.h
-		s := harnessSummary{Name: h, Paths: rep.Paths, Completed: rep.Completed, Pruned: rep.Pruned, Decisions: rep.Branches, Choices: rep.Choices,
+		s := harnessSummary{Name: h, Paths: rep.Paths, Completed: rep.Completed, Pruned: rep.Pruned, Decisions: rep.Branches, Choices: rep.Choices, FastDecided: rep.FastDecided,
 			AssertsSolver: rep.AssertsSolver, AssertsConcrete: rep.AssertsConcrete, Steps: rep.Steps, Reached: rep.Reached,
 			WallS: rep.Wall.Seconds(), SolverS: rep.SolverTime.Seconds(),
 			Queries:      map[string]int{"sat": rep.SolverSat, "unsat": rep.SolverUnsat, "unknown": rep.SolverUnknown},
